@@ -379,17 +379,27 @@ def word_count(S, s):
 
 
 def compound_padding_err(S, s):
-    """some k with k + 1 != count, has_padding(k) and padding(k) >= 1"""
-    has = any(l[0] == "b" and isinstance(l[1], tuple) and l[1][-1] == "has_padding" and l[2] is True for l in s.pc)
+    """the rejecting path is about some member k other than the last (k + 1 < count) that reports padding >= 1"""
     from ..lin import atoms_deep
     coll = S.b.fields.get("packets")
     N = coll.count()
+    has = any(l[0] == "b" and isinstance(l[1], tuple) and l[1][-1] == "has_padding" and l[2] is True for l in s.pc)
+    if not has:
+        return False
+    ks, pads = [], []
     for l in s.pc:
-        if l[0] == "ne":
-            ats = atoms_deep(l[1])
-            ks = [a for a in ats if a[0] == "k"]
-            if ks and solver.entails(s.pc, flit(lt(Lin.atom(ks[0]) + 1, N))):
-                return has
+        if l[0] in ("le", "eq", "ne"):
+            for a in atoms_deep(l[1]):
+                if a[0] == "k" and a not in ks:
+                    ks.append(a)
+                if a[0] == "elem" and a[3] and a[3][-1] == "#padding" and a not in pads:
+                    pads.append(a)
+    for k in ks:
+        if not solver.entails(s.pc, flit(lt(Lin.atom(k) + 1, N))):
+            continue
+        mine = [p for p in pads if Lin.from_key(p[2]) == Lin.atom(k)]
+        if mine and all(solver.entails(s.pc, flit(ge(Lin.atom(p), 1))) for p in mine):
+            return True
     return False
 
 
@@ -408,8 +418,11 @@ def compound_ok(S, s):
         return False
     for a in alts:
         sizeok = any(l[0] == "b" and isinstance(l[1], tuple) and l[1][-1] == "size_ok" and l[2] is True for l in a.pc)
+        from ..lin import atoms_deep
+        pads = {x for l in a.pc if l[0] in ("le", "eq", "ne") for x in atoms_deep(l[1])
+                if x[0] == "elem" and x[3] and x[3][-1] == "#padding" and Lin.from_key(x[2]) == K}
         nopad = any(l[0] == "b" and isinstance(l[1], tuple) and l[1][-1] == "has_padding" and l[2] is False for l in a.pc) or \
-            any(l[0] == "le" and any(x[0] == "elem" and x[3][-1] == "#padding" for x in l[1].t) and solver.entails(a.pc, flit(le(Lin.atom([x for x in l[1].t if x[0] == "elem"][0]), 0))) for l in a.pc)
+            (bool(pads) and all(solver.entails(a.pc, flit(le(Lin.atom(x), 0))) for x in pads))
         if not (sizeok and nopad):
             return False
     return True
